@@ -8,6 +8,7 @@ use crate::runner::{Ctx, Outcome, Prop, Tier};
 use crate::{dispatch_deg7, fail, lib};
 use piecewise_polynomial::*;
 use ppv_exact::{d, Bf, Dy};
+use proptest::collection::vec;
 use proptest::prelude::*;
 use serde::{Deserialize, Serialize};
 
@@ -200,14 +201,14 @@ impl Prop for C07 {
         "C07"
     }
     fn rule(&self) -> String {
-        "case = (degree 0..=7 uniform, coefficient vector with cancellation patterns / wide exponents, all ordinates (coefficients and knot.y) times a common power of two 2^k, k=0 in 70% of cases else uniform in ±300, knot (x of any sign and magnitude incl. ±0, y any), evaluation points a,b, segment end). Oracle: indefinite(): constant 0, coefficient i+1 within one ulp of c_i/(i+1) (bit-exact for divisors 1,2,4,8); integral(knot): same non-constant coefficients bit for bit, exact value of the returned polynomial at knot.x within (4(m+2)+2)u(|y|+S_I(x)) of knot.y, and the same through evaluate; F(b)-F(a) (library evaluate, difference taken exactly) vs the 384-bit integral Σc_i(b^(i+1)-a^(i+1))/(i+1); integral(k).derivative() coefficient-wise within one ulp of p; Segment::{indefinite,integral} bit-identical to the piece-level call with end kept. Value clauses judged only when every term is within 2^±900 (else labelled). Non-trivial: degree>=1, >=2 non-zero coefficients, knot != (2,5).".into()
+        "case = (degree 0..=7 uniform, coefficient vector with cancellation patterns / wide exponents, all ordinates (coefficients and knot.y) times a common power of two 2^k, k=0 in 70% of cases else uniform in ±300, knot (x of any sign and magnitude incl. ±0, y any), evaluation points a,b, segment end; 1 case in 13 plants an exact relation: small-integer data with knot.y equal to plus or minus the indefinite integral at knot.x, or 0). Oracle: indefinite(): constant 0, coefficient i+1 within one ulp of c_i/(i+1) (bit-exact for divisors 1,2,4,8); integral(knot): same non-constant coefficients bit for bit, exact value of the returned polynomial at knot.x within (4(m+2)+2)u(|y|+S_I(x)) of knot.y, and the same through evaluate; F(b)-F(a) (library evaluate, difference taken exactly) vs the 384-bit integral Σc_i(b^(i+1)-a^(i+1))/(i+1); integral(k).derivative() coefficient-wise within one ulp of p; Segment::{indefinite,integral} bit-identical to the piece-level call with end kept. Value clauses judged only when every term is within 2^±900 (else labelled). Non-trivial: degree>=1, >=2 non-zero coefficients, knot != (2,5).".into()
     }
     fn cases(&self, tier: Tier) -> u64 {
         tier.pick(800_000, 12_000_000)
     }
     fn strategy(&self, _tier: Tier) -> BoxedStrategy<Case> {
         let pt = || prop_oneof![3 => gen::moderate(30), 1 => gen::scaled(-60, 60), 1 => Just(0.0), 1 => Just(-0.0)];
-        (0u8..8, any::<u8>(), pt(), gen::moderate(60), pt(), pt(), gen::any_non_nan(), gen::common_scale(300))
+        let general = (0u8..8, any::<u8>(), pt(), gen::moderate(60), pt(), pt(), gen::any_non_nan(), gen::common_scale(300))
             .prop_flat_map(|(deg, wide, kx, ky, a, b, end, sc)| {
                 let emax = if wide % 4 == 0 { 150 } else { 30 };
                 (gen::coeffs(deg as usize + 1, emax)).prop_map(move |c| Case {
@@ -220,7 +221,17 @@ impl Prop for C07 {
                     end: B(end),
                 })
             })
-            .boxed()
+            .boxed();
+        // exact relation between the knot and the polynomial: c_i = (i+1)·m_i with small integers m_i and an
+        // integer knot.x, so that the indefinite integral at knot.x is an exact integer F0; knot.y = F0, -F0 or 0
+        let related = (0u8..8, vec(-2i32..=2, 8), -3i32..=3, 0u8..3, -4i32..=4, -4i32..=4).prop_map(|(deg, m, kx, rel, a, b)| {
+            let n = deg as usize + 1;
+            let c: Vec<f64> = (0..n).map(|i| ((i + 1) as i32 * m[i]) as f64).collect();
+            let f0: f64 = (0..n).map(|i| m[i] as f64 * (kx as f64).powi(i as i32 + 1)).sum();
+            let ky = [f0, -f0, 0.0][rel as usize];
+            Case { deg, c: c.into_iter().map(B).collect(), kx: B(kx as f64), ky: B(ky), a: B(a as f64), b: B(b as f64), end: B(1.0) }
+        });
+        prop_oneof![12 => general, 1 => related].boxed()
     }
     fn check(&self, case: &Case, ctx: &mut Ctx) -> Outcome {
         let deg = case.deg % 8;
